@@ -41,7 +41,8 @@ CLAIMS = {
     "C13": ("loop-shape and recursion-table analysis",
             "LOOP: every loop on the query path has a bounded shape, the three call-graph cycles match the frozen recursion "
             "table (kd-tree shrinking ranges, Bezier one-shot retry, stratified tian2019 re-entry); A5: only std::exception "
-            "types are thrown. Finiteness of values is not decided",
+            "types are thrown; shape of guards: NaN-absorbing clamp before acos, release-active arity checks of per-section and "
+            "input-indexed tables, sibling models agree on their guards. Finiteness of values in general is not decided",
             "§3.8, §4 C13"),
     "C14": ("static effect/alias analysis + parallel-loop discipline",
             "PURE over the query path (no shared write => no data race) and PAR on gwb-grid's parallel_for (disjoint affine "
@@ -50,11 +51,13 @@ CLAIMS = {
     "C15": ("entropy-discipline lint + effect analysis + computer-algebra identity",
             "RNG (banned entropy sources, every draw on the owning world's engine, engine written only from the seed argument "
             "and the file's seed entry), PURE (the draw is the only state a query touches), same-index rule for per-composition "
-            "tables, size-normalisation shape; thorough: symbolic proof that the generated matrices satisfy R*R^T=I, det R=+1",
+            "tables, size-normalisation shape under exactly its flag, single shared bound broadcast with its value; thorough: symbolic "
+            "proof that the generated matrices satisfy R*R^T=I, det R=+1",
             "§3.12, §3.6, §4 C15"),
     "C16": ("forwarding (argument provenance) analysis",
             "FWD over the extern \"C\" API and WorldBuilderWrapper: callee, identity argument forms in declared order, result "
-            "path, handle round trip, new/delete pairing",
+            "path, handle round trip, new/delete pairing; effect analysis of the wrappers (no state of their own); no try block "
+            "(a refusal reaches the caller)",
             "§3.9, §4 C16"),
 }
 
@@ -62,11 +65,13 @@ CLAIMS.update({
     "C17": ("symbolic layout agreement (polynomial offsets) + index-guard dominance",
             "LAYOUT L4 for gwb-dat: request list vs library width table vs printed offsets vs header column count for dim 2 "
             "and 3 (polynomials in compositions, grain compositions, grains); row query argument provenance; every literal "
-            "token index guarded by a size test. Known findings: 2D offsets, 3D header",
+            "token index guarded by a size test; DAT.input: lines tokenised unmodified, option lines order-independent, only empty and "
+            "'#' rows skipped before the arity check, 2D refusal of 'convert spherical' before any output. Known findings: 2D offsets, 3D header",
             "§3.2, §3.4, §4 C17"),
     "C18": ("symbolic layout agreement + provenance + parallel-loop discipline",
             "LAYOUT L4 for gwb-grid (output offsets -> data_set slots, dataSetInfo, filter_vtu_mesh literals), same-index node "
-            "provenance, PAR on the parallel callables and the pool, structure of the mesh filter. Grid generation itself is not decided",
+            "provenance, PAR on the parallel callables and the pool, structure of the mesh filter (both per-cell loops cover all vertices), "
+            "base64 length of appended blocks = 4*ceil(n/3) (proof over residues). Grid generation itself is not decided",
             "§3.2, §3.11, §4 C18"),
 })
 
@@ -85,7 +90,8 @@ CLAIMS.update({
     "C04": ("control-dependence + algebraic normal forms (plume bracket, shorter-arc angle, ellipse) + alias-wrapper shape",
             "closed depth intervals and polygon-test arguments in the extent tests, shape and exclusive use of the longitude-alias "
             "wrappers, plume cross-section interpolation (own table, one fraction, front/back outside), three-case shorter-arc angle "
-            "interpolation, ellipse equation, depth-surface pairing. The winding-number test itself is not decided",
+            "interpolation, ellipse equation, plume head, depth-surface pairing and value-at-points merge/interpolation, closed twin-symmetric "
+            "on-segment test of the polygon routine, no cache outliving a query (PURE). The winding number itself is not decided",
             "§3.4, §3.6, §4 C04"),
     "C05": ("sibling cross-check in normal form + model-level dataflow rules + computer-algebra comparison of simple closed forms",
             "SIB over all replicated model classes with a frozen table of explained differences, R1, G4/G2 (inclusive two-sided range "
@@ -115,7 +121,8 @@ CLAIMS.update({
             "§3.5, §4 C08"),
     "C09": ("algebraic normal form of the cross-section map + layout agreement + dominance of the refusal",
             "direction vector, Cartesian and spherical 2D->3D point map, degree conversion, release-active refusal as first statement, "
-            "2D slot walker vs library width table, velocity projection evaluated in statement order, 2D single-property forwarding",
+            "2D slot walker vs library width table, velocity projection evaluated in statement order and unconditional, stored cross "
+            "section written once, no try block in a 2D entry point, 2D single-property forwarding",
             "§3.6, §3.2, §3.4, §4 C09"),
 })
 
@@ -135,7 +142,8 @@ CLAIMS.update({
             "ONLY two clauses: (B) boundary attainment of the half-space (T(0)=T_top, T(inf)=T_bottom), plate and constant-age plate "
             "models (T(0)=T_top, T(max depth)=T_bottom, every series term vanishes there) and of the linear models (by their verified "
             "form); (E) half space: convex combination with weight erfc(u>=0), dT/d(depth) and dT/d(age) of the documented sign. Bounds "
-            "and monotonicity of the 100-term series, the mass-conserving and slab plate models are not decided",
+            "and monotonicity of the 100-term series, the mass-conserving and slab plate models are not decided; plus the necessary "
+            "conditions that features hand the local depth range to their models and that nothing is cached between queries",
             "§4 C20, §10.8"),
 })
 
